@@ -755,11 +755,27 @@ func c03Inventory(l *lean) {
 					switch fx := x.Fun.(type) {
 					case *ast.SelectorExpr:
 						name = fx.Sel.Name
+						// session wallet key: <…>.Wallet.Key()
+						if inner, ok := fx.X.(*ast.SelectorExpr); ok && name == "Key" && inner.Sel.Name == "Wallet" {
+							kinds["sessionkey"] = true
+						}
 					case *ast.Ident:
 						name = fx.Name
 					}
 					if k, ok := c03NutsNames[name]; ok {
 						kinds[k] = true
+					}
+				case *ast.CompositeLit:
+					// an in-memory signer is built from a private JWK
+					switch tx := x.Type.(type) {
+					case *ast.SelectorExpr:
+						if tx.Sel.Name == "MemoryJWTSigner" {
+							kinds["memsigner"] = true
+						}
+					case *ast.Ident:
+						if tx.Name == "MemoryJWTSigner" {
+							kinds["memsigner"] = true
+						}
 					}
 				}
 				return true
